@@ -6,6 +6,7 @@
 #include <new>
 #include <cstddef>
 #include "yaep.h"
+#include "hashtab.h"
 #include "bind.h"
 extern "C" {
 const char *vy_binding (void) { return "cxx"; }
@@ -39,4 +40,6 @@ int vy_parse (void *g, vy_read_token_t rt, vy_syntax_error_t se, vy_alloc_t a, v
 { return ((yaep *) g)->parse (rt, se, a, f, root, amb); }
 void vy_free_tree (struct yaep_tree_node *root, vy_free_t f, vy_termcb_t cb)
 { yaep::free_tree (root, f, cb); }
+long vy_all_searches (void) { return (long) (unsigned) hash_table::get_all_searches (); }
+long vy_all_collisions (void) { return (long) (unsigned) hash_table::get_all_collisions (); }
 }
